@@ -141,7 +141,8 @@ private:
 	{
 		QueuedEvent qe;
 		if(!q.peekEvent(&qe)) return false;
-		id = std::get<1>(qe.arguments).id; val = std::get<1>(qe.arguments).val; a = std::get<0>(qe.arguments); key = qe.event;
+		id = std::get<1>(qe.arguments).id; val = std::get<1>(qe.arguments).val; a = qe.template getArgument<0>(); key = qe.getEvent();
+		if(a != std::get<0>(qe.arguments) || key != qe.event) id = -7;   // the accessors of QueuedEvent must agree with its members (shows as peek-wrong-event)
 		return true;
 	}
 	static bool peekImpl(T &, int &, int &, int &, int &, char (*)[1]) { return false; }
